@@ -193,6 +193,11 @@ func ExecFleet(p *engine.Plan, st *engine.Stats) *engine.Violation {
 	setMapOrder(p.Cfg("maporder", "asc"), p.Seed^uint64(p.Run)*0x9E3779B97F4A7C15)
 	defer setMapOrder("asc", 0)
 	setSpanBudgets(p, 1<<13, 1<<16)
+	refmodel.BudgetBits = 50
+	if p.Cfg("budget", "") == "52" {
+		refmodel.BudgetBits = 52
+	}
+	defer func() { refmodel.BudgetBits = 50 }()
 	return x.run(func() {
 		for i := range p.Nodes {
 			n := p.Nodes[i]
